@@ -60,7 +60,7 @@ class Gen:
 
     def item(self, level, depth, kind=None):
         kind = kind or self.rng.choice(["bind"] * 6 + ["commented", "eol", "inherit", "inherit-from", "attrpath", "blank-bind",
-                                                      "block-comment", "if-multi", "eol-multi", "empty-containers"])
+                                                      "block-comment", "if-multi", "eol-multi", "empty-containers", "attrpath-next-line"])
         pad = ind(level)
         if kind == "bind":
             return f"{pad}{self.name()} = {self.value(level, depth)};\n"
@@ -85,6 +85,10 @@ class Gen:
                     f"{pad}{self.name()} = [\n{pad}  a\n{pad}  b\n{pad}]; # list\n")
         if kind == "empty-containers":
             return f"{pad}{self.name()} = f [ ];\n{pad}{self.name()} = x: {{ }};\n{pad}{self.name()} = g {{ }} [ ];\n"
+        if kind == "attrpath-next-line":
+            n = self.name()
+            return (f"{pad}{n}.platforms =\n{pad}  with lib.platforms;\n{pad}  linux ++ darwin;\n"
+                    f"{pad}{n}.broken =\n{pad}  if stdenv.isDarwin then\n{pad}    true\n{pad}  else\n{pad}    false;\n")
         if kind == "if-multi":
             return (f"{pad}{self.name()} =\n{pad}  if stdenv.isLinux then\n{pad}    a\n{pad}  else\n{pad}    b;\n")
         raise ValueError(kind)
@@ -123,7 +127,7 @@ class Gen:
         r = self.rng
         wrapper = wrapper or r.choice(["bare", "lambda", "lambda-blank", "lambda-let", "lambda-call", "let", "formals-multi",
                                        "header-lambda-call", "let3", "lambda-let3", "formals-ellipsis", "formals-ellipsis",
-                                       "let-same-twice"])
+                                       "let-same-twice", "assert-multiline"])
         body = self.set_body(0, 0, kinds)
         let = "let\n  owner = \"huggingface\";\n  # We love comments here\n  acc = accelerate;\nin\n"
         if wrapper == "bare":
@@ -143,6 +147,9 @@ class Gen:
             t = ("{ pkgs, ... }:\n" if wrapper == "lambda-let3" else "") + let3 + body
         elif wrapper == "formals-ellipsis":
             t = self.formals_multi() + r.choice(["", let, "stdenv.mkDerivation "]) + body
+        elif wrapper == "assert-multiline":
+            t = ("assert lib.all f [\n  a\n\n  b\n];\n" + r.choice(["", "assert builtins.elem x {\n  k = 1;\n\n  j = 2;\n};\n"])
+                 + r.choice(["", "\n"]) + body)
         elif wrapper == "let-same-twice":
             same = "let\n  version = \"1.0\";\n  # note\n  owner = version;\nin\n"
             t = same + r.choice(["", "let\n  mid = owner;\nin\n"]) + same + body
@@ -154,13 +161,13 @@ class Gen:
 
 
 ITEM_KINDS = ["bind", "commented", "eol", "inherit", "inherit-from", "attrpath", "blank-bind", "block-comment", "if-multi",
-              "eol-multi", "empty-containers"]
+              "eol-multi", "empty-containers", "attrpath-next-line"]
 
 
 def enumerate_pairs(seed=0):
     """every ordered pair of adjacent item kinds × 3 wrappers (deterministic values)"""
     for a in ITEM_KINDS:
         for b in ITEM_KINDS:
-            for w in ("bare", "lambda-call", "lambda-let", "let3", "formals-ellipsis", "let-same-twice"):
+            for w in ("bare", "lambda-call", "lambda-let", "let3", "formals-ellipsis", "let-same-twice", "assert-multiline"):
                 g = Gen(random.Random(zlib.crc32(repr((a, b, w, seed)).encode())), max_depth=2)
                 yield {"pair": [a, b], "wrapper": w}, g.document(kinds=[a, b], wrapper=w)[0]
